@@ -191,7 +191,7 @@ class AddrGroup(Base, Group):
         item1, *items = items
         if self._platform == "nxos":
             name = h.findall1(r"^object-group ip address (.+)", item1)
-        elif self._platform == "ios":
+        else:  # ios, asa: the syntax cmd_addgr_name() renders
             name = h.findall1(r"^object-group network (.+)", item1)
         if not name:
             raise ValueError(f"absent {name=} in {line=}")
